@@ -30,6 +30,8 @@ class WorldA:
         self.seams = Seams()
         self.peers: List[Any] = []
         self._installed = False
+        self._abort: Optional[Violation] = None
+        self._main_task: Optional[asyncio.Task] = None
 
     # -- lifecycle --------------------------------------------------------------------------------------
     def install(self) -> None:
@@ -55,6 +57,14 @@ class WorldA:
             self.log.add("VIOLATION", prop, cls, msg)
             self.result.violations.append(v)
 
+    def abort(self, prop: str, cls: str, msg: str, sig: Optional[str] = None) -> None:
+        """A verdict reached by a watchdog task while the main task is stuck (e.g. inside a context exit that never returns):
+        record it and end the run by cancelling the main task."""
+        self._abort = Violation(prop, cls, msg, sig)
+        self.log.add("VIOLATION", prop, cls, msg)
+        if self._main_task is not None and not self._main_task.done():
+            self._main_task.cancel()
+
     def now(self) -> float:
         return self.clock.peek()
 
@@ -67,10 +77,15 @@ class WorldA:
             self.install()
             asyncio.set_event_loop(None)
             task = loop.create_task(main(self), name="HARNESS:main")
+            self._main_task = task
             try:
                 loop.run_until_complete(task)
             except Violation as v:
                 res.violations.append(v)
+            except asyncio.CancelledError:
+                if self._abort is None:
+                    raise
+                res.violations.append(self._abort)
             except SimDeadlock as e:
                 raise HarnessError(f"deadlock: {e}; main task state: {task!r}")
             finally:
